@@ -527,6 +527,10 @@ fn apply_op(
       np(1);
       src.timeout(ms(&ps[0]), schedulers::new_thread_scheduler())
     }
+    "delay_us" => {
+      np(1);
+      src.delay(Duration::from_micros(ps[0].int() as u64))
+    }
     // the deadline timer runs on the emitting thread: the item's next() returns after the period, with TimedOut delivered
     "timeout_sync" => {
       np(1);
